@@ -8,14 +8,21 @@ and prints one observation per line; every observation is
   * sent to the driver, which either reproduces it exactly (differential: book-keeping ops,
     tune_parameters + is_valid) or decides the proved step relation on it (relational:
     ring zone, selection contracts, replacement steps, generation boundaries of whole runs).
+tools/translate_tune.py regenerates Vita/C06/Gen.lean (the parameters is_valid and the three
+tune_parameters touch, from the clang AST); Props.lean proves the model covers exactly those.
 """
 import concurrent.futures as cf
 import json
 import os
 import re
 import struct
+import sys
 
 from vlib import common as C
+
+sys.path.insert(0, os.path.join(C.ROOT, "tools"))
+import translate_tune  # noqa: E402
+from cxx2lean import Refuse  # noqa: E402
 
 PROP = "Vita.C06.Props"
 HARNESS_RUN = "c06_run"      # comp / run cases
@@ -271,6 +278,14 @@ def run(chk, replay=None):
     rng = C.SplitMix(chk.seed)
     broken = []
 
+    # which parameters do is_valid / tune_parameters touch in the current sources? (clang AST)
+    try:
+        tables, changed = translate_tune.emit(os.path.join(C.LEAN, "Vita", "C06", "Gen.lean"))
+        chk.cov["translated"] = {k: len(v) for k, v in tables.items()}
+        chk.cov["gen_changed_vs_committed"] = bool(changed)
+    except Refuse as e:
+        broken.append("tools/translate_tune.py refuses the current sources: %s" % e)
+
     ok, msg = chk.prove(PROP, [PROP, DRIVER])
     drv_ok = os.path.exists(C.driver_path(DRIVER)) and ok
     if not ok:
@@ -408,7 +423,8 @@ def run(chk, replay=None):
         rule="observations of real executions (book-keeping op, ring draw, selection, replacement step, "
              "generation boundary, tune_parameters call); distinct = distinct (case kind, observation) "
              "pairs excluding configuration lines; each is judged by the harness oracle and by the Lean driver",
-        trusted=["Lean 4.33 kernel", "harness/c06_run.cc (observation + diff of consecutive populations)",
+        trusted=["Lean 4.33 kernel", "harness/c06_run.cc, c06_tune.cc (observation + diff of consecutive populations)",
+                 "tools/translate_tune.py + cxx2lean.py (clang-14 JSON AST -> parameter name lists)",
                  "hand-written models Vita/C06/{Pop,Select,Replace,Tune,Run}.lean (validated by the tie, "
                  "evolution.tcc itself is not translated)",
                  "std::bernoulli_distribution(1.0) is always true; total preorder on fitness_t (C18)",
